@@ -123,6 +123,58 @@ def _thin_ctor(F, PROT, thin, rep, tag):
         rep.bad("R-THIN-CTOR", ik, "a safe function creates a value typed as length-checked (%s) without going through the checked conversion" % sites[0][1], F.loc(b, sites[0][0]), tag) if not edges else rep.ok("R-THIN-CTOR", ik, cfg=tag)
 
 
+def _thick(F, PROT, rep, tag):
+        # ------------------------------------------------------------ R-THICK
+        thick = [b for b in F.body_list if b["kind"] in ("Fn", "AssocFn") and any(F.handle_name(F.strip_refs(t)) == "ThinArc" for t in b.get("inputs", [])) and "output" in b and F.ty(b["output"])["k"] == "ptr" and F.mentions_adt(b["output"], PROT)]
+        if len(thick) != 1:
+            rep.bad("R-THICK", "re-fattening helper", "expected exactly one helper turning `&ThinArc` into a fat block pointer, found %d" % len(thick), None, tag)
+        else:
+            tb = thick[0]
+            B = cfg.Body(tb)
+            e = symx.normalize_calls(F, symx.local_expr(F, B, 0, 0), lambda k: not balance.is_api(F, F.body(k)))  # a private `inner()` accessor is part of the helper
+            calls = []
+            _collect(e, calls)
+            sl = [c for c in calls if c[2] in ("slice_from_raw_parts_mut", "slice_from_raw_parts")]
+            ok = False
+            why = "no slice_from_raw_parts found"
+            if len(sl) == 1:
+                ptr_e = strip_deref_calls(sl[0][3][0])
+                len_e = strip_deref_calls(sl[0][3][1])
+                data_name = F.data_field[1] if F.data_field else "data"
+                thin_field = ptrclass.Norm(F).handle_ptr_fields.get("ThinArc")
+                if (len_e[0] == "proj" and ptr_e[0] == "proj" and len_e[1] == ptr_e[1] and ptr_e[2][-1:] == (thin_field,)
+                        and tuple(len_e[2]) == tuple(ptr_e[2]) + (data_name, "header", "length")):
+                    ok = True
+                else:
+                    why = "the length of the synthesised fat pointer is %s, not the length stored in the same allocation (%s.data.header.length)" % (symx.show(sl[0][3][1]), symx.show(sl[0][3][0]))
+            if ok:
+                rep.ok("R-THICK", tb["key"], symx.show(e), cfg=tag)
+                rep.sample({"rule": "R-THICK", "helper": tb["key"], "fat_pointer": symx.show(e)}) if tag == "default" else None
+            else:
+                rep.bad("R-THICK", tb["key"], why, F.loc(tb), tag)
+            # everything that needs the fat pointer goes through the helper
+            g = cfg.call_graph(F)
+            for h, name, tr in (("ThinArc", "deref", "Deref"), ("ThinArc", "with_arc", None), ("ThinArc", "with_arc_mut", None), ("ThinArc", "clone", "Clone"), ("ThinArc", "drop", "Drop"), ("Arc", "protected_from_thin", None)):
+                for b in F.method(h, name, tr):
+                    fat = any(F.mentions_adt(lc["ty"], PROT) and (F.handle_name(F.strip_refs(lc["ty"])) == "Arc" or F.ty(F.strip_refs(lc["ty"]))["k"] == "ptr") for lc in b["locals"])
+                    if tb["key"] in cfg.reachable_from(g, [b["key"]]):
+                        rep.ok("R-THICK", b["key"] + " uses the helper", cfg=tag)
+                    elif not fat:
+                        rep.ok("R-THICK", b["key"] + " uses the helper", "works on the thin pointer alone (no fat pointer or fat Arc in its body)", cfg=tag)
+                    else:
+                        rep.bad("R-THICK", b["key"] + " uses the helper", "%s does not obtain its fat pointer from the length-reading helper" % b["key"], F.loc(b), tag)
+
+
+def rule_thick(ctx, rep):
+    """R-THICK alone (premise of C11: what `from_raw(into_raw(x))` gives back is read through the same helper)."""
+    for tag, F, E in ctx.each():
+        PROT = prot_path(F)
+        if not PROT or not F.handle_paths.get("ThinArc"):
+            continue
+        _thick(F, PROT, rep, tag)
+    rep.floor("R-THICK", 3, "the re-fattening helper + at least two users")
+
+
 def rule_thin_ctor(ctx, rep):
     """Every entry into the length-checked typestate from safe code is behind `recorded length == slice length` (shared with C07:
     a lying iterator whose len() changes between calls must end in the checked conversion's panic)."""
@@ -199,45 +251,7 @@ def run(ctx, rep):
                 rep.bad("R-PROT-MUT", "%s for %s" % (tr, st["s"]), "a %s impl would hand out `&mut` to the whole length-carrying payload" % tr.split("::")[-1], "%s:%s" % (im["span"]["file"], im["span"]["line"]), tag)
         rep.ok("R-PROT-MUT", "no DerefMut/AsMut/BorrowMut on ThinArc or the protected payload", cfg=tag)
         # accessors returning &mut into the protected payload must be header_mut / slice_mut shaped (covered above by places)
-        # ------------------------------------------------------------ R-THICK
-        thick = [b for b in F.body_list if b["kind"] in ("Fn", "AssocFn") and any(F.handle_name(F.strip_refs(t)) == "ThinArc" for t in b.get("inputs", [])) and "output" in b and F.ty(b["output"])["k"] == "ptr" and F.mentions_adt(b["output"], PROT)]
-        if len(thick) != 1:
-            rep.bad("R-THICK", "re-fattening helper", "expected exactly one helper turning `&ThinArc` into a fat block pointer, found %d" % len(thick), None, tag)
-        else:
-            tb = thick[0]
-            B = cfg.Body(tb)
-            e = symx.normalize_calls(F, symx.local_expr(F, B, 0, 0), lambda k: not balance.is_api(F, F.body(k)))  # a private `inner()` accessor is part of the helper
-            calls = []
-            _collect(e, calls)
-            sl = [c for c in calls if c[2] in ("slice_from_raw_parts_mut", "slice_from_raw_parts")]
-            ok = False
-            why = "no slice_from_raw_parts found"
-            if len(sl) == 1:
-                ptr_e = strip_deref_calls(sl[0][3][0])
-                len_e = strip_deref_calls(sl[0][3][1])
-                data_name = F.data_field[1] if F.data_field else "data"
-                thin_field = ptrclass.Norm(F).handle_ptr_fields.get("ThinArc")
-                if (len_e[0] == "proj" and ptr_e[0] == "proj" and len_e[1] == ptr_e[1] and ptr_e[2][-1:] == (thin_field,)
-                        and tuple(len_e[2]) == tuple(ptr_e[2]) + (data_name, "header", "length")):
-                    ok = True
-                else:
-                    why = "the length of the synthesised fat pointer is %s, not the length stored in the same allocation (%s.data.header.length)" % (symx.show(sl[0][3][1]), symx.show(sl[0][3][0]))
-            if ok:
-                rep.ok("R-THICK", tb["key"], symx.show(e), cfg=tag)
-                rep.sample({"rule": "R-THICK", "helper": tb["key"], "fat_pointer": symx.show(e)}) if tag == "default" else None
-            else:
-                rep.bad("R-THICK", tb["key"], why, F.loc(tb), tag)
-            # everything that needs the fat pointer goes through the helper
-            g = cfg.call_graph(F)
-            for h, name, tr in (("ThinArc", "deref", "Deref"), ("ThinArc", "with_arc", None), ("ThinArc", "with_arc_mut", None), ("ThinArc", "clone", "Clone"), ("ThinArc", "drop", "Drop"), ("Arc", "protected_from_thin", None)):
-                for b in F.method(h, name, tr):
-                    fat = any(F.mentions_adt(lc["ty"], PROT) and (F.handle_name(F.strip_refs(lc["ty"])) == "Arc" or F.ty(F.strip_refs(lc["ty"]))["k"] == "ptr") for lc in b["locals"])
-                    if tb["key"] in cfg.reachable_from(g, [b["key"]]):
-                        rep.ok("R-THICK", b["key"] + " uses the helper", cfg=tag)
-                    elif not fat:
-                        rep.ok("R-THICK", b["key"] + " uses the helper", "works on the thin pointer alone (no fat pointer or fat Arc in its body)", cfg=tag)
-                    else:
-                        rep.bad("R-THICK", b["key"] + " uses the helper", "%s does not obtain its fat pointer from the length-reading helper" % b["key"], F.loc(b), tag)
+        _thick(F, PROT, rep, tag)
         # ------------------------------------------------------------ identity of conversions (same allocation, count untouched)
         N = ptrclass.Norm(F)
         fA, fT = N.handle_ptr_fields.get("Arc"), N.handle_ptr_fields.get("ThinArc")
